@@ -87,7 +87,12 @@ def runner(prop, fam, tier, seed, replay=None):
                               note="counterexamples of the design as found at the pinned commit; each is executed on the real controller as chain shape#cex<i> "
                                    "(a history that violates on the real code is reported through the normal VIOLATION / KNOWN-FINDING path)")
             log("original design: %d counterexample histories (%s)" % (len(cex), "; ".join(",".join(c) for c, _ in cex)))
-        rc = table_check(prop, fam2, tier, seed, replay)
+        try:
+            rc = table_check(prop, fam2, tier, seed, replay)
+        except Exception as e:   # a crash of the driver is never a verdict
+            import traceback
+            print("INFRA-FAILURE property=%s driver exception: %s" % (prop, traceback.format_exc()[-2000:]), flush=True)
+            return 2
         if shape_info is not None:
             p = os.path.join(vcheck.VERIF, "evidence", prop + ".json")
             try:
